@@ -820,3 +820,121 @@ Proof.
   - apply at_query_fields.
   - apply at_query_fields.
 Qed.
+
+(** * The monitor codes 201, 202, 203 are silent on every model trace *)
+Lemma In_ck k b n : In k (ck b n) -> k = n /\ b = false.
+Proof. unfold ck. destruct b; cbn; intuition. Qed.
+
+Ltac in_cks H :=
+  repeat (apply in_app_or in H; destruct H as [H|H]);
+  try (apply In_ck in H; destruct H as [H ?]; try discriminate H).
+
+Lemma leqb_refl l : leqb l l = true.
+Proof. induction l as [|a l IH]; cbn; [reflexivity|]. rewrite Nat.eqb_refl. exact IH. Qed.
+Lemma row_eqb_refl r : row_eqb r r = true.
+Proof. destruct r as [[s j] n]. cbn. rewrite state_eqb_refl, leqb_refl, Nat.eqb_refl. reflexivity. Qed.
+Lemma rows_eqb_refl l : list_eqb row_eqb l l = true.
+Proof. induction l as [|a l IH]; cbn; [reflexivity|]. rewrite row_eqb_refl. exact IH. Qed.
+
+Lemma prev_deliver m r : prev (deliver m r) = prev m.
+Proof.
+  destruct r as [x [v|]]; [|reflexivity]. destruct v; reflexivity.
+Qed.
+Lemma prev_fold_deliver reps : forall m, prev (fold_left deliver reps m) = prev m.
+Proof. induction reps as [|r reps IH]; intros m; cbn [fold_left]; [reflexivity|]. rewrite IH. apply prev_deliver. Qed.
+
+Lemma prev_step_base c g p b e : prev (step_base c g p b e) = prev b.
+Proof.
+  destruct e as [js|js|x|x k sched res]; cbn [step_base]; try reflexivity.
+  - destruct (qcode p); cbn; rewrite ?prev_fold_deliver; reflexivity.
+  - destruct res as [j|]; [|reflexivity]. destruct sched; reflexivity.
+Qed.
+
+Lemma prev_fold_ev c g p es : forall m, prev (mb (fold_left (step_ev c g p) es m)) = prev (mb m).
+Proof.
+  induction es as [|e es IH]; intros m; cbn [fold_left]; [reflexivity|]. rewrite IH. cbn. apply prev_step_base.
+Qed.
+
+Definition c20_code (k : nat) : Prop := k = 201 \/ k = 202 \/ k = 203.
+
+(** per adapter call: only 201 can be raised, and only by EGen/ESubmit after a failed query *)
+Lemma flags_ev_c20 c g p b e k : c20_code k -> In k (flags_ev c g p b e) ->
+  k = 201 /\ qcode p = QERROR /\ dry c = false /\ is_submit_or_gen e = true.
+Proof.
+  intros Hk H. destruct e as [js|js|x|x kd sched res]; cbn [flags_ev] in H.
+  - exfalso. in_cks H; destruct Hk as [->|[->|->]]; discriminate.
+  - exfalso. in_cks H; destruct Hk as [->|[->|->]]; discriminate.
+  - apply In_ck in H. destruct H as [-> H]. splits; auto.
+    + destruct (qcode p); cbn in H; try discriminate; reflexivity.
+    + destruct (dry c); [|reflexivity]. rewrite orb_true_r in H. discriminate.
+  - assert (T : In k (ck (negb (qcode_eqb (qcode p) QERROR) || dry c) 201) ->
+                k = 201 /\ qcode p = QERROR /\ dry c = false /\ true = true).
+    { intros H'. apply In_ck in H'. destruct H' as [-> H']. splits; auto.
+      - destruct (qcode p); cbn in H'; try discriminate; reflexivity.
+      - destruct (dry c); [|reflexivity]. rewrite orb_true_r in H'. discriminate. }
+    cbn [is_submit_or_gen].
+    destruct kd, res as [j|]; in_cks H; auto; exfalso; destruct Hk as [->|[->|->]]; discriminate.
+Qed.
+
+(** end of poll: 203 iff the status contradicts the query code; 202 iff rows changed after a failed query *)
+Lemma flags_end_c20 c g p b rows stat k : c20_code k -> In k (flags_end c g p b rows stat) ->
+  (k = 203 /\ Bool.eqb (qcode_eqb (qcode p) QERROR && negb (dry c)) (sstatus_eqb stat SABORT) = false) \/
+  (k = 202 /\ qcode_eqb (qcode p) QERROR && negb (dry c) = true /\ list_eqb row_eqb rows (prev b) = false).
+Proof.
+  intros Hk H. unfold flags_end in H. cbv zeta in H.
+  in_cks H; try (exfalso; destruct Hk as [->|[->|->]]; discriminate).
+  - left. auto.
+  - right. match goal with E : negb _ || _ = false |- _ => apply orb_false_iff in E; destruct E as [E1 E2] end.
+    apply negb_false_iff in E1. auto.
+Qed.
+
+Lemma zip_cons_nil {A B} (a : A) l : zip (a :: l) (@nil B) = [].
+Proof. reflexivity. Qed.
+
+Theorem monitor_c20_silent c g k : c20_code k -> forall ps s m,
+  prev (mb m) = rows_of s -> ~ In k (viol m) ->
+  ~ In k (viol (fold_left (step_poll c g) (zip ps (run c g s ps)) m)).
+Proof.
+  intros Hk. induction ps as [|p ps IH]; intros s m Hp Hv; [exact Hv|].
+  cbn [run]. destruct (poll c g s p) as [s1 r] eqn:E.
+  set (o := (rev (evs s1), rows_of s1, r)).
+  set (m1 := fold_left (step_ev c g p) (rev (evs s1)) m).
+  assert (P1 : prev (mb m1) = rows_of s) by (unfold m1; rewrite prev_fold_ev; exact Hp).
+  assert (V1 : ~ In k (viol m1)).
+  { unfold m1. clear P1 m1.
+    assert (G : forall es m0, (forall e, In e es -> forall b, ~ In k (flags_ev c g p b e)) ->
+                ~ In k (viol m0) -> ~ In k (viol (fold_left (step_ev c g p) es m0))).
+    { induction es as [|e es IHes]; intros m0 He Hm0; cbn [fold_left]; [exact Hm0|].
+      apply IHes; [intros e' He'; apply He; right; exact He'|].
+      cbn. rewrite in_app_iff. intros [H|H]; [exact (Hm0 H)|]. exact (He e (or_introl eq_refl) _ H). }
+    apply G; [|exact Hv]. intros e He b Hin.
+    destruct (flags_ev_c20 c g p b e k Hk Hin) as (_ & Hq & Hd & Hs).
+    pose proof (poll_error_fields c g s p Hd Hq) as F. rewrite E in F. cbn [fst snd] in F.
+    destruct F as (_ & _ & _ & _ & _ & _ & _ & _ & _ & _ & _ & F).
+    rewrite forallb_forall in F. apply in_rev in He. specialize (F e He). rewrite Hs in F. discriminate. }
+  assert (Step : prev (mb (step_poll c g m (p, o))) = rows_of s1 /\ ~ In k (viol (step_poll c g m (p, o)))).
+  { unfold step_poll, o. fold m1. cbn [mb viol end_base prev]. split; [reflexivity|].
+    rewrite in_app_iff. intros [H|H]; [exact (V1 H)|].
+    destruct (flags_end_c20 c g p (mb m1) (rows_of s1) r k Hk H) as [[_ A]|(_ & A & B)].
+    - assert (Iff : r = SABORT <-> dry c = false /\ qcode p = QERROR).
+      { rewrite <- (poll_abort_iff c g s p), E. reflexivity. }
+      destruct (qcode_eqb (qcode p) QERROR && negb (dry c)) eqn:Q.
+      + apply andb_true_iff in Q. destruct Q as [Q1 Q2]. apply negb_true_iff in Q2.
+        assert (r = SABORT) by (apply Iff; split; auto; destruct (qcode p); try discriminate; reflexivity).
+        subst r. discriminate.
+      + destruct r; try discriminate. destruct Iff as [Iff _]. destruct (Iff eq_refl) as [Hd Hq].
+        rewrite Hd, Hq in Q. discriminate.
+    - apply andb_true_iff in A. destruct A as [Q1 Q2]. apply negb_true_iff in Q2.
+      assert (Hq : qcode p = QERROR) by (destruct (qcode p); try discriminate; reflexivity).
+      pose proof (poll_error_fields c g s p Q2 Hq) as F. rewrite E in F. cbn [fst snd] in F.
+      destruct F as (_ & F1 & _). rewrite P1 in B. unfold rows_of in B. rewrite F1, rows_eqb_refl in B. discriminate. }
+  destruct Step as [S1 S2].
+  destruct r; try (cbn [zip fold_left]; destruct ps; exact S2).
+  cbn [zip fold_left]. apply IH; assumption.
+Qed.
+
+Corollary model_trace_c20_codes c g ps k : c20_code k -> ~ In k (viol_of c g ps (run c g (init g) ps)).
+Proof.
+  intros Hk. unfold viol_of, monitor. apply monitor_c20_silent; auto.
+  cbn. unfold rows_of. cbn. rewrite map_map. reflexivity.
+Qed.
